@@ -10,6 +10,8 @@ Accepted statements (anything else fails the translation):
     del self._edge[<v>]         del self._edge_attr[<v>]    (and _node / _node_attr)
     update_uid_counter(self, <v>)        self._node_attr[<v>].update(<the **attr of the method>)
     for <x> in self._edge[<v>].copy(): <stmts>            (or self._node[<v>].copy())
+    self._edge[<v>] = members | frozenset(members)        <x> = next(self._edge_uid)   (scope = the rest of the block)
+    for <x> in self.edges.members(<v>): <stmts>  (a copy)   raise ValueError(...)        <v> is None
     <name> = self._node[<v>]   (a reference to the stored set; scope = the rest of the block)
     for <x> in <name>: <stmts>        for <x> in <name>.difference({<v>}): <stmts>        (at most two nested loops)
   <cond> ::= <v> in self._T | <v> not in self._T | <v> [not] in self._T[<v>] | not self._T[<v>] | <flag> | not <cond>
@@ -37,6 +39,7 @@ class M:
         self.labels, self.flags, self.kwattr = labels, flags, kwattr
         self.loops, self.locals = [], []          # innermost first
         self.members, self.idx, self.uid = members, idx, None   # add_edge: the `members` set, the optional id, the bound uid
+        self.always_auto = False                                # a helper that always draws its id from the counter
 
     def v(self, x):
         if isinstance(x, ast.Name) and x.id in self.labels:
@@ -90,6 +93,9 @@ class M:
             t = self.selftab(right, TABLES)
             if t:
                 return f"(BIdxIn {t})"
+        if isinstance(c, ast.Compare) and len(c.ops) == 1 and isinstance(c.ops[0], (ast.Is, ast.IsNot)) \
+                and ast.unparse(c.comparators[0]) == "None" and isinstance(c.left, ast.Name) and c.left.id in self.loops[:2]:
+            return f"(BIsNone {self.v(c.left)})" if isinstance(c.ops[0], ast.Is) else f"(BNot (BIsNone {self.v(c.left)}))"
         if isinstance(c, ast.Compare) and len(c.ops) == 1 and isinstance(c.ops[0], (ast.In, ast.NotIn)):
             right = c.comparators[0]
             t = self.selftab(right, TABLES)
@@ -115,6 +121,14 @@ class M:
                     self.locals.pop(0)
                     out.append(f"(SBindIn {s[0]} {s[1]} {rest})")
                     return "[" + "; ".join(out) + "]"
+            # x = next(self._edge_uid)  (a method without an id parameter): the rest of the block is its scope
+            if isinstance(st, ast.Assign) and len(st.targets) == 1 and isinstance(st.targets[0], ast.Name) and self.idx is None \
+                    and self.uid is None and self.always_auto and ast.unparse(st.value) == "next(self._edge_uid)":
+                self.uid = st.targets[0].id
+                rest = self.block(stmts[i + 1:])
+                self.uid = None
+                out.append(f"(SBindUid {rest})")
+                return "[" + "; ".join(out) + "]"
             # uid = next(self._edge_uid) if idx is None else idx ; the rest of the block is its scope
             if isinstance(st, ast.Assign) and len(st.targets) == 1 and isinstance(st.targets[0], ast.Name) and self.idx is not None \
                     and self.uid is None and ast.unparse(st.value) == f"next(self._edge_uid) if {self.idx} is None else {self.idx}":
@@ -147,13 +161,15 @@ class M:
         if isinstance(st, ast.If):
             return f"(SIf {self.cond(st.test)} {self.block(st.body)} {self.block(st.orelse)})"
         if isinstance(st, ast.Raise) and isinstance(st.exc, ast.Call) and isinstance(st.exc.func, ast.Name) \
-                and st.exc.func.id in ("XGIError", "IDNotFound"):
+                and st.exc.func.id in ("XGIError", "IDNotFound", "ValueError"):
             return f"(SRaise {st.exc.func.id})"
         if isinstance(st, ast.Assign) and len(st.targets) == 1:
             tgt, val = st.targets[0], st.value
             s = self.sub(tgt, TABLES)
             if s and ast.unparse(val) == "set()":
                 return f"(SNewSet {s[0]} {s[1]})"
+            if s and self.members is not None and ast.unparse(val) in (self.members, f"frozenset({self.members})"):
+                return f"(SSetMembers {s[0]} {s[1]})"
             s = self.sub(tgt, ATABLES)
             if s and ast.unparse(val) in ("{}", "self._node_attr_dict_factory()", "self._edge_attr_dict_factory()"):
                 return f"(SNewAttr {s[0]} {s[1]})"
@@ -190,6 +206,15 @@ class M:
                 return f"(SDelAttr {s[0]} {s[1]})"
         if isinstance(st, ast.For) and isinstance(st.target, ast.Name) and not st.orelse and len(self.loops) < 2:
             it = st.iter
+            # self.edges.members(<v>) / self.nodes.memberships(<v>) return a copy of the stored set
+            if isinstance(it, ast.Call) and len(it.args) == 1 and not it.keywords \
+                    and ast.unparse(it.func) in ("self.edges.members", "self.nodes.memberships"):
+                t = "TEdge" if ast.unparse(it.func) == "self.edges.members" else "TNode"
+                k = self.v(it.args[0])
+                self.loops.insert(0, st.target.id)
+                body = self.block(st.body)
+                self.loops.pop(0)
+                return f"(SForCopy {t} {k} {body})"
             keyt = {"self.nodes": "TNode", "self._node": "TNode", "self": "TNode", "self.edges": "TEdge", "self._edge": "TEdge"}.get(ast.unparse(it))
             if keyt and not self.loops:
                 # iterating the keys while the body runs: only `self._T[<loop>] = set()` on existing keys is accepted
